@@ -53,6 +53,10 @@ def run_one(m, verbose=True):
         if 'cargo check failed' in out:
             return 'broken', 'mutant does not compile'
         fails = [ln for ln in r.stdout.splitlines() if '[FAIL]' in ln or '[LOST]' in ln]
+        if m.get('benign'):
+            if r.returncode == 0 and not fails:
+                return 'silent', 'behaviour-preserving edit raises no alarm'
+            return 'false-alarm', (fails[0].strip()[:260] if fails else 'exit=%d' % r.returncode)
         hit = [ln for ln in fails if m['rule'] in ln and (not m.get('expect') or m['expect'] in ln)]
         if r.returncode == 1 and 'VIOLATION property=%s' % m['property'] in r.stdout and hit:
             return 'caught', hit[0].strip()[:220]
@@ -64,7 +68,7 @@ def run_one(m, verbose=True):
 
 
 def controls_for(prop, maxn=3):
-    return [m for m in load() if m['property'] == prop and m.get('control')][:maxn]
+    return [m for m in load() if m['property'] == prop and m.get('control') and not m.get('benign')][:maxn]
 
 
 def main(argv):
@@ -75,7 +79,7 @@ def main(argv):
     for m in ms:
         st, msg = run_one(m)
         print('%-12s %-4s %-7s %-28s %s' % (st.upper(), m['property'], m['rule'], m['id'], msg), flush=True)
-        if st in ('missed', 'broken'):
+        if st in ('missed', 'broken', 'false-alarm'):
             bad += 1
     print('%d mutants, %d not caught' % (len(ms), bad))
     return 1 if bad else 0
